@@ -34,6 +34,10 @@ pub(crate) fn validate_ast(compilation_state: &mut CompilationState) {
 
     // Check for any cyclic data structures. If any exist, exit early to avoid infinite loops during validation.
     cycle_detection::detect_inheritance_cycles(&compilation_state.ast, diagnostics);
+    // Anonymous types that contain themselves must be rejected before anything (including the checks below) traverses them.
+    if cycle_detection::detect_type_alias_cycles(&compilation_state.ast, diagnostics) {
+        return;
+    }
     cycle_detection::detect_cycles(&compilation_state.ast, diagnostics);
     if diagnostics.has_errors() {
         return;
